@@ -1,0 +1,65 @@
+//! Verification hooks. Compiled only with the `verif` cargo feature; never part of a normal build.
+//!
+//! * `set_guard_hook` installs a process wide callback that is invoked immediately before a
+//!   `MemfsGuard` is acquired and when one is dropped so an external scheduler can serialise
+//!   threads at critical section boundaries and detect nested acquisition.
+//! * `Dump` is a plain data copy of the complete internal state of a `Memfs` instance.
+use std::{path::PathBuf, sync::OnceLock};
+
+/// Guard events reported to the hook
+#[derive(Debug, Clone, Copy, PartialEq, Eq)]
+pub enum GuardEvent {
+    BeforeRead,
+    BeforeWrite,
+    Released,
+}
+
+static GUARD_HOOK: OnceLock<fn(GuardEvent)> = OnceLock::new();
+
+/// Install the process wide guard hook. Only the first call has any effect.
+pub fn set_guard_hook(hook: fn(GuardEvent)) {
+    let _ = GUARD_HOOK.set(hook);
+}
+
+#[inline]
+pub(crate) fn guard_event(event: GuardEvent) {
+    if let Some(hook) = GUARD_HOOK.get() {
+        hook(event);
+    }
+}
+
+/// Plain data copy of a single Memfs entry as stored in the entries index
+#[derive(Debug, Clone, PartialEq, Eq)]
+pub struct DumpEntry {
+    pub key: PathBuf,
+    pub path: PathBuf,
+    pub alt: PathBuf,
+    pub rel: PathBuf,
+    pub dir: bool,
+    pub file: bool,
+    pub link: bool,
+    pub mode: u32,
+    pub uid: u32,
+    pub gid: u32,
+    pub follow: bool,
+    pub children: Option<Vec<String>>,
+}
+
+/// Plain data copy of a single Memfs data file as stored in the files index
+#[derive(Debug, Clone, PartialEq, Eq)]
+pub struct DumpFile {
+    pub key: PathBuf,
+    pub path: Option<PathBuf>,
+    pub pos: u64,
+    pub data: Vec<u8>,
+}
+
+/// Plain data copy of the complete Memfs state
+#[derive(Debug, Clone, PartialEq, Eq)]
+pub struct Dump {
+    pub cwd: PathBuf,
+    pub root: PathBuf,
+    pub poisoned: bool,
+    pub entries: Vec<DumpEntry>,
+    pub files: Vec<DumpFile>,
+}
